@@ -1,5 +1,7 @@
 (* Pointer model of TestNode.bridge_with_node: each node holds a reference to its (four) visit
-   registers; bridging a with b records the link on both sides and makes a point to b's registers. *)
+   registers.  Bridging a with b records the link on both sides; a node that is not bridged yet
+   adopts b's registers, a node that already is bridged keeps its registers and b - together with
+   everything b is bridged with - adopts them. *)
 From Coq Require Import List Arith Bool.
 Import ListNotations.
 
@@ -10,9 +12,13 @@ Definition binit : bstate := mkB (fun n => n) (fun _ => []).
 Definition bridge (s : bstate) (a b : nat) : bstate :=
   if Nat.eqb a b then s
   else if memn b (links s a) then s
-  else mkB (fun n => if Nat.eqb n a then refs s b else refs s n)
-           (fun n => if Nat.eqb n a then links s a ++ [b]
-                     else if Nat.eqb n b then links s b ++ [a] else links s n).
+  else
+    let new_links := fun n => if Nat.eqb n a then links s a ++ [b]
+                              else if Nat.eqb n b then links s b ++ [a] else links s n in
+    match links s a with
+    | [] => mkB (fun n => if Nat.eqb n a then refs s b else refs s n) new_links
+    | _ => mkB (fun n => if Nat.eqb n b || memn n (links s b) then refs s a else refs s n) new_links
+    end.
 
 (* the parser: a freshly parsed node is bridged with every already parsed node of its form *)
 Definition join (s : bstate) (n : nat) (cls : list nat) : bstate := fold_left (fun st m => bridge st n m) cls s.
@@ -20,3 +26,11 @@ Definition join (s : bstate) (n : nat) (cls : list nat) : bstate := fold_left (f
 (* the update tool: all ordered pairs *)
 Definition all_pairs (s : bstate) (nodes : list nat) : bstate :=
   fold_left (fun st a => fold_left (fun st' b => bridge st' a b) nodes st) nodes s.
+
+(* the behaviour before the repair (fix: see known_findings.json): the bridging node always adopted *)
+Definition bridge_old (s : bstate) (a b : nat) : bstate :=
+  if Nat.eqb a b then s
+  else if memn b (links s a) then s
+  else mkB (fun n => if Nat.eqb n a then refs s b else refs s n)
+           (fun n => if Nat.eqb n a then links s a ++ [b]
+                     else if Nat.eqb n b then links s b ++ [a] else links s n).
